@@ -399,7 +399,7 @@ def _setup_v1_load_config_for_cls(
         if field_type is CatchAll:
             load_dataclass_field_to_alias[CATCH_ALL] \
                 = dump_dataclass_field_to_alias[CATCH_ALL] \
-                = f'{f.name}{"" if f.default is MISSING else "?"}'
+                = f'{f.name}{"" if f.default is MISSING and f.default_factory is MISSING else "?"}'
 
         # Check if the field annotation is an `Annotated` type. If so,
         # look for any `JSON` objects in the arguments; for each object,
